@@ -28,12 +28,18 @@ R4  displacement trace     bound_displacement_cell @ u + bound_displacement_face
                            component (the reconstruction the models use for the boundary displacement).
 R5  Robin data             (Robin variant) a Robin face must admit boundary data, independent of the elastic moduli, for
                            which the translation is stress free (sigma.n + alpha u = g with sigma = 0 gives g = alpha u0).
+R6  Robin directions       (Robin variants, 2-d and 3-d, a different symbolic weight per direction) robin_weight[k, k] of a face
+                           enters the coefficients of component k of that face and nothing else, and the stress coefficients
+                           of component k depend on it: a Robin condition with limit weights is the documented way to get a
+                           roller (fixed in one direction, free in another), which a translation along the free direction
+                           must leave stress free.  Independent of the known R5 finding.
 
 Not decided: the values of the coefficients (harmonic / arithmetic averages enter both sides of every identity, so a wrong
 value that keeps the pairing is invisible - exactly as for the property itself), unique solvability of the system, anything
 about a concrete grid or floating point, incidence patterns other than the two models (the assembly is local per half-face;
 generality over topologies is an argument, not a verdict), the terms that multiply the rotation and the solid pressure (they
-are zero in the translation state), the data-dependent choice of the scalar Dirichlet filter (argmax of |n|).
+are zero in the translation state).  The data-dependent choice of the scalar Dirichlet filter (argmax of |n|) is resolved
+by the model assumption that each face of the Cartesian pattern is closest to its own coordinate axis.
 """
 from __future__ import annotations
 
@@ -63,7 +69,9 @@ BC2_ROB = {**BC2, 7: (R, R), 11: (R, R)}
 # 2 x 1 x 1 mesh: x-faces 0, 2; y-faces 3, 4 (sign -1), 5, 6; z-faces 7, 8 (sign -1), 9, 10.
 BC3 = {0: (D, D, D), 2: (N_, N_, N_), 3: (D, D, D), 4: (N_, N_, N_), 5: (D, N_, N_), 6: (N_, D, D), 7: (N_, N_, D), 8: (D, D, N_), 9: (D, D, D), 10: (N_, N_, N_)}
 
-VARIANTS = [("2d", 2, (2, 2), BC2), ("3d", 3, (2, 1, 1), BC3), ("2d Robin", 2, (2, 2), BC2_ROB)]
+BC3_ROB = {**BC3, 9: (R, R, R), 10: (R, R, R), 6: (R, R, R)}
+
+VARIANTS = [("2d", 2, (2, 2), BC2), ("3d", 3, (2, 1, 1), BC3), ("2d Robin", 2, (2, 2), BC2_ROB), ("3d Robin", 3, (2, 1, 1), BC3_ROB)]
 
 
 class Run:
@@ -95,6 +103,7 @@ def interpret_tpsa(repo, name: str, nd: int, shape: tuple, bc: dict) -> Run:
     if sorted(bc) != mesh.boundary:
         raise AnchorError(f"C16 model: boundary faces {mesh.boundary} do not match the condition table")
     sd = mesh.grid()
+    w.oracle = mesh.dominant_axis_oracle
     nf, nc = mesh.nf, mesh.nc
     flags = {k: np.zeros((nd, nf), dtype=bool) for k in (D, N_, R)}
     for f, kinds in bc.items():
@@ -202,7 +211,7 @@ def check_stress(ctx: Ctx, mod, fn, run: Run) -> None:
                 coef = sp.diff(val, gr)          # val is affine in the datum
                 gamma = None if is_zero(coef) else sp.factor_terms(-val.xreplace({gr: sp.Integer(0)}) / coef)
                 mus = _depends_on_moduli(gamma) if gamma is not None else []
-                robin.append((f, k, gamma, mus))
+                robin.append((f, k, gamma, mus, _mass_gamma(run, f, k)))
                 continue
             ok = is_zero(val)
             ctx.check("R2", ok, mod, Q, run.node("bound_stress" if f in run.bc else "stress", fn),
@@ -210,14 +219,59 @@ def check_stress(ctx: Ctx, mod, fn, run: Run) -> None:
                       f"(stress @ u + bound_stress @ g)" + ("" if ok else f"; found {_short(sp.factor_terms(val))}"),
                       construct=f"translation: zero stress [{run.name}] face {f} ({_kinds(run, f)}) component {k}")
     if robin:
-        bad = [(f, k, gamma, mus) for f, k, gamma, mus in robin if gamma is None or mus]
+        bad = [t for t in robin if t[2] is None or t[3]]
         ex = bad[0] if bad else None
         ctx.check("R5", not bad, mod, Q, run.node("bound_stress", fn),
-                  f"[{run.name}] Robin faces {sorted({f for f, _, _, _ in robin})}: the translation u0 must be stress free for boundary data g = gamma * u0 with gamma independent of "
+                  f"[{run.name}] Robin faces {sorted({t[0] for t in robin})}: the translation u0 must be stress free for boundary data g = gamma * u0 with gamma independent of "
                   f"the elastic moduli (sigma.n + alpha u = g with sigma = 0: gamma = alpha, possibly times the face area)"
                   + ("" if not bad else f"; on face {ex[0]}, component {ex[1]} the stored matrices need gamma = {_short(ex[2]) if ex[2] is not None else 'no solution'}"
-                     + (f", which depends on {', '.join(ex[3])}" if ex[3] else "") + f" ({len(bad)} of {len(robin)} Robin components)"),
+                     + (f", which depends on {', '.join(ex[3])}" if ex[3] else "") + f" ({len(bad)} of {len(robin)} Robin components); the solid-mass row of the same face "
+                       f"is consistent only for gamma = {_short(ex[4])}, a different datum"),
                   construct=f"Robin data consistent with a translation [{run.name}]", facts={"gamma": [str(t[2]) for t in robin][:4]})
+
+
+def _mass_gamma(run: Run, f: int, k: int):
+    """the Robin datum g = gamma * u0 for which the face displacement entering the solid-mass row (normal . face average) is u0:
+    mass[f, (c, k)] + gamma * bound_mass[f, (f, k)] = N_k(f)"""
+    nd, mesh = run.nd, run.mesh
+    (c, _), = mesh.cells_of[f]
+    m, b = run.mats["mass"].get((f, nd * c + k), sp.Integer(0)), run.mats["bound_mass"].get((f, nd * f + k), sp.Integer(0))
+    if b == 0:
+        return None
+    return sp.factor_terms(sp.cancel(sp.together((mesh.N[k, f] - m) / b)))
+
+
+def check_robin_locality(ctx: Ctx, mod, fn, run: Run) -> None:
+    """R6: the Robin weight of direction k of a face enters the rows / columns of component k of that face and nothing else (a Robin condition may emulate a
+    roller: fixed in one direction, free in another), and the stress coefficients of component k do depend on it"""
+    nd, mesh = run.nd, run.mesh
+    vec_rows = ("stress", "bound_stress", "trace_cell", "trace_face")
+    for f, kinds in sorted(run.bc.items()):
+        if R not in kinds:
+            continue
+        for k in range(nd):
+            own = run.rw[(f, k)]
+            foreign = {s_ for key_, s_ in run.rw.items() if key_ != (f, k)}
+            bad, seen_own = None, False
+            for key in KEYS:
+                for (i, j), v in run.mats[key].items():
+                    if key in vec_rows:
+                        hit = i == nd * f + k
+                    else:
+                        hit = (j % nd == k) and i // (1 if nd == 2 or key in ("mass", "bound_mass") else nd) == f
+                    if not hit:
+                        continue
+                    fs = sp.sympify(v).free_symbols
+                    if key in ("stress", "bound_stress") and own in fs:
+                        seen_own = True
+                    alien = sorted(str(s_) for s_ in fs & foreign)
+                    if alien and bad is None:
+                        bad = f"{KEYS[key][:-11]}[{i},{j}] depends on {', '.join(alien)}"
+            ok = bad is None and seen_own
+            ctx.check("R6", ok, mod, Q, run.node("bound_stress", fn),
+                      f"[{run.name}] Robin face {f}, direction {k}: the weight robin_weight[{k},{k}] must enter the coefficients of component {k} of this face and no other "
+                      f"component or face" + ("" if ok else f"; {bad if bad else 'the stress coefficients of this component do not depend on it'}"),
+                      construct=f"Robin weight enters its own component only [{run.name}] face {f} direction {k}")
 
 
 def _depends_on_moduli(gamma) -> list:
@@ -304,10 +358,13 @@ def run(ctx: Ctx) -> None:
         r = interpret_tpsa(repo, name, nd, shape, bc)
         if not check_wellformed(ctx, mod, fn, r):
             continue
-        check_stress(ctx, mod, fn, r)
+        if name != "3d Robin":
+            check_stress(ctx, mod, fn, r)
         if "Robin" not in name:
             check_cell_residuals(ctx, mod, fn, r)
             check_trace(ctx, mod, fn, r)
+        else:
+            check_robin_locality(ctx, mod, fn, r)
         ctx.sample({"variant": name, "steps": r.w.steps, "stress[0,0]": _short(r.mats["stress"].get((0, 0)))})
 
 
@@ -322,16 +379,17 @@ META = {
                      "matrix keys are the literals Tpsa.__init__ assigns"],
     "assumptions": ["cells are closed (sum of outward face normals = 0): imposed on the symbolic normals in R3",
                     "the assembly is local per half-face, so the two incidence patterns with every boundary kind stand for all grids (argument, not verdict)",
+                    "each face normal of the Cartesian model pattern is closest to its own coordinate axis (only used for the argmax in _create_filters)",
                     "boundary flags are one-hot per component (C39); basis is the identity; Robin is not mixed with other kinds on a face (the code raises otherwise)"],
     "accepted_forms": ["any rewrite inside the modelled numpy / scipy subset; helpers of Tpsa (static or not), module-level functions and dataclasses of tpsa.py are "
                        "interpreted with arguments bound by position or keyword (depth <= 6); if-arms with tests that are concrete on the model (nd, flags)",
-                       "values the model does not know (argmax over symbolic normals) poison only what they flow into; the clauses do not read those matrices",
+                       "values the model does not know poison only what they flow into; argmax over |face normals| is answered by the model (dominant axis of each face)",
                        "anything else: exit 2 (undecided), never a finding"],
     "technique": "abstract interpretation of the assembly over symbolic model meshes (extracted-formula identities; sympy as term normaliser)",
     "level_note": "Decides the translation clauses for the two model incidence patterns and ALL geometries / shear moduli on them.  Not decided: coefficient values, "
                   "solvability, other incidence patterns, floating point.",
 }
-MIN_INSTANCES = {"R1": 24, "R2": 70, "R3": 16, "R4": 40, "R5": 1}
+MIN_INSTANCES = {"R1": 32, "R2": 70, "R3": 16, "R4": 40, "R5": 1, "R6": 13}
 
 
 def _m(name, old, new, rule, control=False, count=1, accept_undecided=False):
@@ -349,7 +407,7 @@ MUTANTS = [
     _m("cells-expanded-from-face-index", "ci_expanded = pp.array_operations.expand_indices_nd(ci, nd)", "ci_expanded = pp.array_operations.expand_indices_nd(fi, nd)", "*"),
     _m("shear-modulus-gathered-with-face-index", "mu = stiffness.mu[numbering.ci]", "mu = stiffness.mu[numbering.fi]", "R1"),
     # ---- averaging maps: weights sum to one, Dirichlet components take the datum
-    _m("averaging-weights-sum-to-half", "((2 * dist.mu_by_dist_fc_cc, (numbering.fi, numbering.ci)))", "((dist.mu_by_dist_fc_cc, (numbering.fi, numbering.ci)))", "R3", control=True),
+    _m("averaging-weights-sum-to-half", "((2 * dist.mu_by_dist_fc_cc, (numbering.fi, numbering.ci)))", "((dist.mu_by_dist_fc_cc, (numbering.fi, numbering.ci)))", "R3"),
     _m("averaging-denominator-without-factor", "weights=np.hstack((2 * mu_by_dist_fc_cc_nd, rob_weights_boundary_faces)),", "weights=np.hstack((mu_by_dist_fc_cc_nd, rob_weights_boundary_faces)),", "R3"),
     _m("averaging-denominator-tiled", "mu_by_dist_fc_cc_nd = np.repeat(mu_by_dist_fc_cc, nd)", "mu_by_dist_fc_cc_nd = np.tile(mu_by_dist_fc_cc, nd)", "R3"),
     _m("dirichlet-rows-of-average-not-zeroed", "        c2f.data[to_zero] = 0\n", "", "R3"),
@@ -363,6 +421,12 @@ MUTANTS = [
     # ---- displacement trace
     _m("trace-dirichlet-filter-complemented", "        bound_displacement_face = (\n            filters.dir_pass_nd\n", "        bound_displacement_face = (\n            filters.dir_notpass_nd\n", "R4"),
     _m("trace-cell-part-complement-map", "bound_displacement_cell = filters.neu_rob_pass_nd @ c2f_maps.c2f", "bound_displacement_cell = filters.neu_rob_pass_nd @ c2f_maps.c2f_compl", "R4"),
+    # ---- independently seeded changes (all pass the repository's tests)
+    _m("seed-robin-z-weight-from-y", "rob_weight = np.vstack((rob_weight, bnd_disp.robin_weight[2, 2]))", "rob_weight = np.vstack((rob_weight, bnd_disp.robin_weight[1, 1]))", "R6"),
+    _m("seed-average-zeroed-by-facewise-filter", "dir_nd_face = np.where(filters.dir_notpass_nd.diagonal() == 0)[0]",
+       "dir_nd_face = pp.array_operations.expand_indices_nd(\n            np.where(filters.dir_notpass.diagonal() == 0)[0], nd\n        )", "R3", control=True),
+    _m("seed-neumann-zeroing-facewise", "        trm_nd[neu_faces] = 0\n", "        trm_nd[:, np.any(neu_faces, axis=0)] = 0\n", "R2"),
+    _m("robin-weights-swapped-between-directions", "(bnd_disp.robin_weight[0, 0], bnd_disp.robin_weight[1, 1])", "(bnd_disp.robin_weight[1, 1], bnd_disp.robin_weight[0, 0])", "R6"),
     _m("trace-stored-under-swapped-keys", "        matrix_dictionary[self.bound_displacement_cell_matrix_key] = (\n            bound_displacement_cell\n        )",
        "        matrix_dictionary[self.bound_displacement_cell_matrix_key] = (\n            bound_displacement_face\n        )", "R1"),
 ]
